@@ -308,6 +308,64 @@ let () =
         (if !outs = [] then "-" else String.concat ";" (Stdlib.List.rev !outs))
         (hex (String.concat "" sent)) (if s.Client.cs_idle then 1 else 0))
 
+(* ---- pool (C14): breadth-first search of the model's state space ---- *)
+let ev_name = function
+  | Pool.EAccept -> "accept" | Pool.EDecide -> "decide" | Pool.EDeq i -> Printf.sprintf "deq%d" (int_of_nat i)
+  | Pool.EStart i -> Printf.sprintf "start%d" (int_of_nat i) | Pool.EFinish i -> Printf.sprintf "finish%d" (int_of_nat i)
+  | Pool.EIdle i -> Printf.sprintf "idle%d" (int_of_nat i) | Pool.EDrop -> "drop"
+
+let () =
+  register "pool_bfs" (fun a ->
+      match a with
+      | [ini; mx; nj] ->
+        let initial = int_of_string ini and max = int_of_string mx and njobs = int_of_string nj in
+        let maxn = nat_of_int max in
+        let s0 = PoolFacts.src_init (nat_of_int initial) maxn in
+        let seen = Hashtbl.create 100000 in
+        let q = Queue.create () in
+        Hashtbl.replace seen s0 (); Queue.add (s0, []) q;
+        let states = ref 0 and trans = ref 0 in
+        let viol = ref None in
+        while !viol = None && not (Queue.is_empty q) do
+          let (s, path) = Queue.pop q in
+          incr states;
+          if not (Pool.bound_ok maxn s) then viol := Some ("bound", path)
+          else if not (Pool.no_strand_ok maxn s) then viol := Some ("strand", path)
+          else begin
+            let nw = Stdlib.List.length s.Pool.workers in
+            let evs = ref [] in
+            if int_of_nat s.Pool.accepted < njobs then evs := Pool.EAccept :: !evs;
+            evs := Pool.EDecide :: !evs;
+            for i = 0 to nw - 1 do
+              let n = nat_of_int i in
+              evs := Pool.EDeq n :: Pool.EStart n :: Pool.EFinish n :: Pool.EIdle n :: !evs
+            done;
+            Stdlib.List.iter (fun e ->
+                match PoolFacts.src_step maxn s e with
+                | Some s1 ->
+                  incr trans;
+                  if not (Hashtbl.mem seen s1) then begin Hashtbl.replace seen s1 (); Queue.add (s1, e :: path) q end
+                | None -> ()) !evs
+          end
+        done;
+        Printf.sprintf "states=%d transitions=%d violation=%s" !states !trans
+          (match !viol with None -> "none"
+                          | Some (k, p) -> k ^ ":" ^ String.concat "," (Stdlib.List.rev_map ev_name p))
+      | _ -> failwith "pool_bfs");
+  (* listen_model <idle_s> <has_stop> <events: t<stop><busy> | a<stop>> *)
+  register "listen_model" (fun a ->
+      match a with
+      | idle :: stop :: evs ->
+        let c = PoolFacts.src_cfg (nat_of_int (int_of_string idle)) (stop = "1") in
+        let es = Stdlib.List.map (fun t ->
+            if t.[0] = 't' then Listen.Tick (t.[1] = '1', nat_of_int (int_of_string (String.sub t 2 (String.length t - 2))))
+            else Listen.Acc (t.[1] = '1')) evs in
+        let ((res, st), rest) = Listen.lrun c (Listen.linit c) es in
+        Printf.sprintf "res=%s accepted=%d consumed=%d"
+          (match res with None -> "running" | Some Listen.RTimeout -> "timeout" | Some Listen.RStopped -> "stopped")
+          (int_of_nat st.Listen.naccepted) (Stdlib.List.length es - Stdlib.List.length rest)
+      | _ -> failwith "listen_model")
+
 let () =
   let tbl = handlers in
   (try
